@@ -157,7 +157,7 @@ PROPS = {
                         "Go memory model: a data race is two conflicting non-atomic accesses not ordered by a common mutex"],
     },
     "C16": {
-        "proof_files": ["Proofs/ListenFacts.v", "Mutants/ListenRace.v", "Proofs/StartFacts.v"],
+        "proof_files": ["Proofs/ListenFacts.v", "Mutants/ListenRace.v", "Proofs/StartFacts.v", "Proofs/SlotsFacts.v"],
         "generated": {"cmd": ["start-extract"], "out": "Gen/StartParams.v",
                       "compile": ["Gen/StartParams.v", "Properties/C16_instance.v"], "theorem": "C16_start_instance"},
         "runs": [{"engine": "listen", "args": [], "n_quick": 120, "n_thorough": 5000, "netns": True},
